@@ -851,6 +851,15 @@ def c07_code_to_spec(tier, seed, cov, binary=None, plan=None):
                 bump("blocks_registry_grew_by_deposits")
             if h["ops"].get("attestations"):
                 bump("blocks_after_real_attestations")
+        seatlists = [e["sync_direct"]] + ([e["state_sync_cur"], e["state_sync_next"]] if e["has_sync"] else [])
+        if any(len(set(x)) < len(x) for x in seatlists):
+            bump("sync_committee_with_multi_seat_member")
+            if len(nxt) < e["P"]["SYNC_COMMITTEE_SIZE"]:
+                bump("multi_seat_certain_fewer_active_than_seats")
+            elif len(set(e["sync_direct"])) < len(e["sync_direct"]):
+                bump("multi_seat_although_enough_active_validators")
+        if e["has_sync"] and len(e["state_sync_next_agg"]) == 48:
+            bump("stored_aggregate_pubkey_checked")
         if e["has_sync"] and len(set(e["state_sync_cur"])) < len(e["state_sync_cur"]):
             bump("sync_committee_with_duplicate_member")
         c = covs.get(i)
@@ -905,6 +914,7 @@ def c07_code_to_spec(tier, seed, cov, binary=None, plan=None):
             detail = {"expected_proposers": x.get("proposers"), "got_proposers": [a["proposers"] for a in e["epcs"]],
                       "expected_counts": x.get("counts"), "got_counts": [a["counts"] for a in e["epcs"]],
                       "expected_syncNext": x.get("syncNext"), "sync_direct": e["sync_direct"],
+                      "aggregates(direct,cur,next)": [e["sync_direct_agg"][:6], e["state_sync_cur_agg"][:6], e["state_sync_next_agg"][:6]],
                       "state_sync": [e["state_sync_cur"], e["state_sync_next"]]}
         except lib.InfraError as ex:
             failing, detail = ["diagnosis failed: " + str(ex)[-300:]], {}
@@ -920,6 +930,8 @@ def c07_code_to_spec(tier, seed, cov, binary=None, plan=None):
                     "next_epoch_active_set_differs", "several_committees_per_slot", "committee_sizes_differ_by_one",
                     "proposer_loop_2_or_more_iterations", "sync_loop_rejected_a_candidate", "epc_running", "epc_fresh",
                     "registry_over_256", "kind_chain", "kind_mutated-upgraded", "kind_blocks",
+                    "sync_committee_with_multi_seat_member", "multi_seat_certain_fewer_active_than_seats",
+                    "multi_seat_although_enough_active_validators", "stored_aggregate_pubkey_checked",
                     "blocks_fork_phase0", "blocks_fork_altair", "blocks_fork_bellatrix", "blocks_fork_capella",
                     "blocks_fork_deneb", "blocks_boundary_upgrade", "blocks_boundary_rotate",
                     "blocks_validator_activated_via_queue", "blocks_validator_exited_voluntarily",
@@ -1047,6 +1059,11 @@ def selftest():
         a["sync_next"] = e["state_sync_cur"]
     bad, _, _, _ = validate_committee_trace(cl[:rot[0]] + [json.dumps(e)], "st-sync", set())
     out["c07_unrotated_stored_sync_committee_rejected"] = bad == rot[0]
+    up = [i for i, x in enumerate(evs) if x["boundary"] == "upgrade"][0]
+    e = json.loads(cl[up])
+    e["state_sync_next_agg"][5] ^= 1
+    bad, _, _, _ = validate_committee_trace(cl[:up] + [json.dumps(e)], "st-agg", set())
+    out["c07_wrong_stored_aggregate_pubkey_rejected"] = bad == up
     # ---- C07 replayer with a canned mutation
     _, _, ccases = run_committee_job(("st-gen", cfg_text({"MinV": 1, "TwoStatus": "FALSE", "MaxV": 10, "GenSeed": 3, "NCases": 2, "Emit": "TRUE"},
                                                          "InitB", "NextB", ["InvB"]), 2, 900, True))
